@@ -53,6 +53,7 @@ type HandlerObs struct {
 	Deadline   time.Duration // relative to run start
 	Arg2OK, Arg3OK bool
 	ArgsRead   bool // the handler read both arguments to the end without error
+	Read2, Read3 int // argument bytes handed to the handler (also when a read failed)
 	ReadErr    error
 	RespErr    error
 	CtxDoneAt  time.Duration // 0 = not observed
@@ -85,6 +86,8 @@ type CallRec struct {
 	Cancelled bool
 	CancelAt  time.Duration
 	Appended  bool // a relay host appended key/values to arg2
+	CorruptReq, CorruptRes bool // a byte of the request / response was altered in transit
+	Read2, Read3 int // response argument bytes handed to the caller (also when a read failed)
 }
 
 // completedNormally: the call ended with its response or with the error its
@@ -270,9 +273,9 @@ func readArgRaw(rd tchannel.ArgReader, err error, pat int, want int) ([]byte, er
 	switch pat {
 	case 1: // exactly the argument's bytes, then Close without observing EOF
 		out = make([]byte, want)
-		if _, err := io.ReadFull(rd, out); err != nil {
+		if n, err := io.ReadFull(rd, out); err != nil {
 			rd.Close()
-			return out, err
+			return out[:n], err
 		}
 	case 2:
 		buf := make([]byte, 5000-app(5000))
@@ -355,12 +358,14 @@ func (w *World) Call(r *CallRec) {
 	}
 	resp := call.Response()
 	a2, err := readArg(resp.Arg2Reader())(s.ReadPat, len(r.wantRes2))
+	r.Read2 = len(a2)
 	if err != nil {
 		finish(err)
 		return
 	}
 	r.AppErr = resp.ApplicationError()
 	a3, err := readArg(resp.Arg3Reader())(s.ReadPat, len(r.wantRes3))
+	r.Read3 = len(a3)
 	if err != nil {
 		finish(err)
 		return
